@@ -155,6 +155,24 @@ def run(tier, seed, only=None):
                 else:
                     d = {"num_x": nx, "num_y": ny, "wing_type": wt, "symmetry": symm, "num_twist_cp": 3}
                     mesh = np.asarray(gen(d)[0], dtype=float)
+                    # the twist control points returned with a CRM mesh: as many as asked for, mirror symmetric on a full
+                    # span, and on its left half the values of the half model (tip -> root)
+                    for ntw in ((2, 3, 4, 5, 6) if (nx, ny) == sizes[0] else ()):
+                        from symoas.sym import fabs as _fabs
+                        from fractions import Fraction as _Fr
+                        tw = np.asarray(gen(dict(d, num_twist_cp=ntw))[1], dtype=float)
+                        cq = lambda v: const(_Fr(float(v)))
+                        mt = {"wt": wt, "nx": nx, "ny": ny, "symm": symm, "ntw": ntw, "kind": "twist"}
+                        obs.append(oblig.Ob("%s twist count %d (%s)" % (wt, ntw, "half" if symm else "full"), lhs=S(len(tw)), rhs=S(ntw),
+                                            meta=dict(mt, family="as many CRM twist control points as requested (%s)" % wt.split(":")[0])))
+                        if not symm:
+                            for j in range(len(tw)):
+                                obs.append(oblig.Ob("%s twist mirror %d/%d" % (wt, j, ntw), cond=gt(_fabs(cq(tw[j]) - cq(tw[len(tw) - 1 - j])), S(1e-12)),
+                                                    meta=dict(mt, family="CRM twist control points of a full-span wing are mirror symmetric (%s)" % wt.split(":")[0])))
+                            half = np.asarray(gen(dict(d, symmetry=True, num_twist_cp=(ntw + 1) // 2))[1], dtype=float)
+                            for j in range(len(half)):
+                                obs.append(oblig.Ob("%s twist left half %d/%d" % (wt, j, ntw), cond=gt(_fabs(cq(tw[j]) - cq(half[j])), S(1e-12)),
+                                                    meta=dict(mt, family="left half of the full-span CRM twist control points = those of the half model (%s)" % wt.split(":")[0])))
                 nyy = mesh.shape[1]
                 if mesh.shape != (nx, ny if not symm else (ny + 1) // 2, 3):
                     rep.errors.append("shape %r for %r" % (mesh.shape, d))
@@ -163,14 +181,47 @@ def run(tier, seed, only=None):
                 tag = "%s %dx%d %s" % (wt, nx, ny, "half" if symm else "full")
                 for i in range(nx - 1):
                     for j in range(nyy):
-                        obs.append(oblig.Ob("%s x order [%d,%d]" % (tag, i, j), cond=le(q[i + 1, j, 0], q[i, j, 0]), meta={"family": "x increases chordwise (%s)" % wt.split(":")[0]}))
+                        obs.append(oblig.Ob("%s x order [%d,%d]" % (tag, i, j), cond=le(q[i + 1, j, 0], q[i, j, 0]), meta={"family": "x increases chordwise (%s)" % wt.split(":")[0], "cfg": (wt, nx, ny, symm)}))
                 for j in range(nyy - 1):
-                    obs.append(oblig.Ob("%s y order [%d]" % (tag, j), cond=le(q[0, j + 1, 1], q[0, j, 1]), meta={"family": "y increases spanwise (%s)" % wt.split(":")[0]}))
+                    obs.append(oblig.Ob("%s y order [%d]" % (tag, j), cond=le(q[0, j + 1, 1], q[0, j, 1]), meta={"family": "y increases spanwise (%s)" % wt.split(":")[0], "cfg": (wt, nx, ny, symm)}))
                 if not symm:
                     for j in range(nyy):
                         from symoas.sym import fabs
-                        obs.append(oblig.Ob("%s mirror [%d]" % (tag, j), cond=gt(fabs(q[0, j, 1] + q[0, nyy - 1 - j, 1]), S(1e-9)), meta={"family": "mirror symmetry about y = 0 (%s)" % wt.split(":")[0]}))
-    run_obligations(rep, "concrete planforms (CRM tables, span_cos_spacing=2)", obs, timeout, family=lambda ob: "generate_mesh: " + ob.meta["family"], cut_threshold=0)
+                        obs.append(oblig.Ob("%s mirror [%d]" % (tag, j), cond=gt(fabs(q[0, j, 1] + q[0, nyy - 1 - j, 1]), S(1e-9)), meta={"family": "mirror symmetry about y = 0 (%s)" % wt.split(":")[0], "cfg": (wt, nx, ny, symm)}))
+    def planform_replay(ob, env):
+        # ground clauses about the real generator's output: generate again and evaluate the clause on floats
+        m_ = ob.meta
+        if m_.get("kind") == "twist":
+            d_ = {"num_x": m_["nx"], "num_y": m_["ny"], "wing_type": m_["wt"], "symmetry": m_["symm"], "num_twist_cp": m_["ntw"]}
+            tw_ = np.asarray(gen(d_)[1], dtype=float)
+            bad_ = []
+            if len(tw_) != m_["ntw"]:
+                bad_.append("%d control points returned for num_twist_cp = %d" % (len(tw_), m_["ntw"]))
+            if not m_["symm"]:
+                if np.abs(tw_ - tw_[::-1]).max() > 1e-12:
+                    bad_.append("twist control points %s are not mirror symmetric" % np.round(tw_, 4))
+                half_ = np.asarray(gen(dict(d_, symmetry=True, num_twist_cp=(m_["ntw"] + 1) // 2))[1], dtype=float)
+                if len(tw_) >= len(half_) and np.abs(tw_[: len(half_)] - half_).max() > 1e-12:
+                    bad_.append("left half %s differs from the half model's %s" % (np.round(tw_[: len(half_)], 4), np.round(half_, 4)))
+            return bool(bad_), "%s, symmetry=%s, num_twist_cp=%d: %s" % (m_["wt"], m_["symm"], m_["ntw"], "; ".join(bad_) or "clause holds on the real output")
+        wt_, nx_, ny_, symm_ = m_["cfg"]
+        if wt_ == "rect2":
+            mesh_ = np.asarray(gen({"num_x": nx_, "num_y": ny_, "wing_type": "rect", "symmetry": symm_, "span_cos_spacing": 2.0, "span": 10.0, "root_chord": 1.0}), dtype=float)
+        else:
+            mesh_ = np.asarray(gen({"num_x": nx_, "num_y": ny_, "wing_type": wt_, "symmetry": symm_, "num_twist_cp": 3})[0], dtype=float)
+        bad_ = []
+        if np.any(np.diff(mesh_[:, :, 0], axis=0) <= 0):
+            bad_.append("x does not increase chordwise")
+        if np.any(np.diff(mesh_[0, :, 1]) <= 0):
+            bad_.append("y does not increase spanwise")
+        if not symm_ and np.abs(mesh_[0, :, 1] + mesh_[0, ::-1, 1]).max() > 1e-9:
+            bad_.append("y not mirror symmetric")
+        return bool(bad_), "%s %dx%d symmetry=%s: %s" % (wt_, nx_, ny_, symm_, "; ".join(bad_) or "clause holds on the real output")
+
+    for o_ in obs:
+        o_.meta.setdefault("cfg", None)
+    run_obligations(rep, "concrete planforms (CRM tables, span_cos_spacing=2)", obs, timeout, family=lambda ob: "generate_mesh: " + ob.meta["family"], cut_threshold=0,
+                    replay=planform_replay)
     multisection(rep, tier, timeout)
     rep.bounds = {"sizes": sizes, "blends": "symbolic in [0,1]", "span, chord": "symbolic > 0", "CRM": "concrete tables"}
     rep.assumptions = ["real arithmetic; concrete cosines of the spacing law are the doubles numpy computes (residues below 1e-15 are zero)"]
